@@ -69,6 +69,10 @@ pub struct GSpec {
     /// attribute lines for the typed derive (C20); empty = defaults (+ emit_rule_reference when getters)
     pub options: Vec<String>,
     pub base_id: String,
+    /// explicit input list instead of all strings over the alphabet
+    pub inputs: Option<Vec<String>>,
+    /// generate accessor observations (C17) for rules named c*/s*/r*
+    pub acc: bool,
     /// do not derive the pest parser (C20 variants share the base grammar's pest parser results via the base entry)
     pub no_pest: bool,
 }
